@@ -45,11 +45,10 @@ func (n *VerifNode) HasTerm() bool { return n.worker.leanHelixTerm != nil }
 // Deliver: main loop (parse, forward), then worker (parse, filter).
 func (n *VerifNode) Deliver(message *interfaces.ConsensusRawMessage) {
 	n.st.GcOldContexts()
-	parsedMessage := interfaces.ToConsensusMessage(message)
-	_ = parsedMessage.MessageType()
-	parsedMessage = interfaces.ToConsensusMessage(message)
-	_ = parsedMessage.MessageType()
-	n.worker.filter.HandleConsensusRawMessage(message)
+	if parseConsensusMessage(message) == nil {
+		return
+	}
+	n.worker.handleConsensusRawMessage(message)
 }
 
 // Election: main loop's handling of a trigger for (h, v), then the worker's.
